@@ -72,6 +72,9 @@ func Calls(fn *ssa.Function) []CallSite {
 		for _, in := range b.Instrs {
 			if ci, ok := in.(ssa.CallInstruction); ok {
 				out = append(out, CallSite{Fn: fn, Instr: ci, Name: calleeName(ci.Common())})
+				if h := transparentCallee(in); h != nil {
+					out = append(out, Calls(h)...)
+				}
 			}
 		}
 	}
@@ -81,8 +84,14 @@ func Calls(fn *ssa.Function) []CallSite {
 // CallsDeep lists the call instructions of fn and all nested closures.
 func CallsDeep(fn *ssa.Function) []CallSite {
 	var out []CallSite
+	seen := map[ssa.Instruction]bool{}
 	for _, f := range WithAnons(fn) {
-		out = append(out, Calls(f)...)
+		for _, cs := range Calls(f) {
+			if !seen[cs.Instr] {
+				seen[cs.Instr] = true
+				out = append(out, cs)
+			}
+		}
 	}
 	return out
 }
@@ -132,6 +141,28 @@ func instrIndex(in ssa.Instruction) int {
 // (a dominates b).
 func Dominates(a, b ssa.Instruction) bool {
 	if a.Parent() != b.Parent() {
+		// b inside a transparent helper: a must dominate (or be) its call site
+		if s := siteOf(b.Parent()); s != nil && EnclosingTop(b.Parent()) == b.Parent() {
+			if a == ssa.Instruction(s) || Dominates(a, s) {
+				return true
+			}
+		}
+		// a inside a transparent helper: a must be executed on every path through the helper, and the site dominate b
+		if s := siteOf(a.Parent()); s != nil && EnclosingTop(a.Parent()) == a.Parent() {
+			h := a.Parent()
+			all := true
+			for _, blk := range h.Blocks {
+				if ret, ok := blk.Instrs[len(blk.Instrs)-1].(*ssa.Return); ok {
+					if !(a.Block() == blk || a.Block().Dominates(blk)) {
+						all = false
+					}
+					_ = ret
+				}
+			}
+			if all && (b == ssa.Instruction(s) || Dominates(s, b)) && b != ssa.Instruction(s) {
+				return true
+			}
+		}
 		return false
 	}
 	if a.Block() == b.Block() {
@@ -178,6 +209,9 @@ func Guards(in ssa.Instruction) []Guard {
 	var out []Guard
 	blk := in.Block()
 	fn := blk.Parent()
+	if s := siteOf(fn); s != nil && EnclosingTop(fn) == fn {
+		out = append(out, Guards(s)...)
+	}
 	for _, b := range fn.Blocks {
 		if len(b.Instrs) == 0 {
 			continue
@@ -265,29 +299,39 @@ func canReach(fn *ssa.Function, from ssa.Instruction, stop instrPred, atEnd func
 	if len(fn.Blocks) == 0 {
 		return false, nil
 	}
+	entry := fn.Blocks[0]
+	if EnclosingTop(fn) == fn {
+		fn = ownerOf(fn) // a transparent helper's returns resume in its caller
+	}
 	type item struct {
 		b     *ssa.BasicBlock
 		start int
 		trail []*ssa.BasicBlock
 	}
+	type key struct {
+		b     *ssa.BasicBlock
+		start int
+	}
 	var work []item
 	if from == nil {
-		work = append(work, item{fn.Blocks[0], 0, nil})
+		work = append(work, item{entry, 0, nil})
 	} else {
 		work = append(work, item{from.Block(), instrIndex(from) + 1, nil})
 	}
-	seen := map[*ssa.BasicBlock]bool{}
+	seen := map[key]bool{}
 	for len(work) > 0 {
 		it := work[len(work)-1]
 		work = work[:len(work)-1]
-		if it.start == 0 {
-			if seen[it.b] {
+		k := key{it.b, it.start}
+		if it.start == 0 || seen[k] {
+			if seen[k] {
 				continue
 			}
-			seen[it.b] = true
 		}
+		seen[k] = true
 		trail := append(append([]*ssa.BasicBlock{}, it.trail...), it.b)
 		blocked := false
+		descended := false
 		for i := it.start; i < len(it.b.Instrs); i++ {
 			in := it.b.Instrs[i]
 			if target != nil && target(in) {
@@ -297,9 +341,25 @@ func canReach(fn *ssa.Function, from ssa.Instruction, stop instrPred, atEnd func
 				blocked = true
 				break
 			}
+			// the body of a transparent helper is part of this function: continue inside it;
+			// its returns come back to the instruction after this call
+			if h := transparentCallee(in); h != nil && len(h.Blocks) > 0 {
+				work = append(work, item{h.Blocks[0], 0, trail})
+				descended = true
+				break
+			}
 		}
-		if blocked {
+		if blocked || descended {
 			continue
+		}
+		// a return of a transparent helper resumes after its call site
+		if f := it.b.Parent(); f != fn && len(it.b.Succs) == 0 {
+			if s := siteOf(f); s != nil && EnclosingTop(f) == f {
+				if _, isRet := it.b.Instrs[len(it.b.Instrs)-1].(*ssa.Return); isRet {
+					work = append(work, item{s.Block(), instrIndex(s) + 1, trail})
+				}
+				continue
+			}
 		}
 		if atEnd != nil && atEnd(it.b, len(it.b.Instrs)) {
 			return true, trail
@@ -795,6 +855,19 @@ func (li *LockInfo) Held(in ssa.Instruction) LockSet {
 	if s, ok := li.before[in]; ok {
 		return s
 	}
+	// an instruction of a transparent helper: the helper starts with the locks held at its call site
+	if f := in.Parent(); f != nil && f != li.fn {
+		if s := siteOf(f); s != nil && EnclosingTop(f) == f {
+			entry := LockSet{}
+			for k, v := range li.Held(s) {
+				entry[k] = v
+			}
+			sub := LocksFrom(f, entry)
+			if hs, ok := sub.before[in]; ok {
+				return hs
+			}
+		}
+	}
 	return LockSet{}
 }
 
@@ -827,6 +900,9 @@ func FieldAccesses(fn *ssa.Function) []FieldAccess {
 	var out []FieldAccess
 	for _, b := range fn.Blocks {
 		for _, in := range b.Instrs {
+			if h := transparentCallee(in); h != nil {
+				out = append(out, FieldAccesses(h)...)
+			}
 			fa, ok := in.(*ssa.FieldAddr)
 			if !ok {
 				continue
@@ -937,6 +1013,25 @@ type CondEval func(cond ssa.Value, phiInts map[*ssa.Phi]int64) (val, known bool)
 
 var activeCondEval CondEval // set for the duration of PrunedCanReachEval (single-threaded analyser)
 
+// activePathRets: results returned by transparent helpers on the path being explored.
+var activePathRets map[*ssa.Call][]ssa.Value
+
+func substRet(v ssa.Value) (ssa.Value, bool) {
+	switch x := v.(type) {
+	case *ssa.Extract:
+		if call, ok := x.Tuple.(*ssa.Call); ok {
+			if rs, ok := activePathRets[call]; ok && x.Index < len(rs) {
+				return rs[x.Index], true
+			}
+		}
+	case *ssa.Call:
+		if rs, ok := activePathRets[x]; ok && len(rs) == 1 {
+			return rs[0], true
+		}
+	}
+	return v, false
+}
+
 func PrunedCanReachEval(fn *ssa.Function, from ssa.Instruction, assumes []Assume, eval CondEval, target, stop instrPred) (bool, []*ssa.BasicBlock) {
 	activeCondEval = eval
 	defer func() { activeCondEval = nil }()
@@ -955,6 +1050,40 @@ func condValuePhiInt(cond ssa.Value, assumes []Assume, phiVals map[*ssa.Phi]bool
 	if u, ok := cond.(*ssa.UnOp); ok && u.Op == token.NOT {
 		v, known := condValuePhiInt(u.X, assumes, phiVals, phiInts)
 		return !v, known
+	}
+	// comparison of a result of a transparent helper: decided from what this path returned
+	if bo, ok := cond.(*ssa.BinOp); ok && len(activePathRets) > 0 {
+		x, okx := substRet(bo.X)
+		y, oky := substRet(bo.Y)
+		if okx || oky {
+			isNil := func(v ssa.Value) bool {
+				k, isK := v.(*ssa.Const)
+				return isK && k.Value == nil
+			}
+			if isNil(x) && isNil(y) {
+				switch bo.Op {
+				case token.EQL:
+					return true, true
+				case token.NEQ:
+					return false, true
+				}
+			}
+			ts := "(" + Term(x) + " " + bo.Op.String() + " " + Term(y) + ")"
+			for _, a := range assumes {
+				if regexpMustCompile(a.Re).MatchString(ts) {
+					return a.Val, true
+				}
+			}
+			// a freshly built error (fmt.Errorf, errors.New, a wrapped error) is not nil
+			if isNil(y) {
+				if c, isCall := x.(*ssa.Call); isCall && c.Call.StaticCallee() != nil {
+					switch c.Call.StaticCallee().String() {
+					case "fmt.Errorf", "errors.New":
+						return bo.Op == token.NEQ, true
+					}
+				}
+			}
+		}
 	}
 	// comparison of an integer phi the path assigned a constant to
 	if bo, ok := cond.(*ssa.BinOp); ok && phiInts != nil {
@@ -1012,6 +1141,10 @@ func PrunedCanReach(fn *ssa.Function, from ssa.Instruction, assumes []Assume, ta
 	if len(fn.Blocks) == 0 {
 		return false, nil
 	}
+	entry := fn.Blocks[0]
+	if EnclosingTop(fn) == fn {
+		fn = ownerOf(fn) // a transparent helper's returns resume in its caller
+	}
 	type item struct {
 		b       *ssa.BasicBlock
 		pred    *ssa.BasicBlock
@@ -1019,13 +1152,15 @@ func PrunedCanReach(fn *ssa.Function, from ssa.Instruction, assumes []Assume, ta
 		trail   []*ssa.BasicBlock
 		phiVals map[*ssa.Phi]bool
 		phiInts map[*ssa.Phi]int64
+		rets    map[*ssa.Call][]ssa.Value // results returned by transparent helpers along this path
 	}
 	var work []item
 	if from == nil {
-		work = append(work, item{fn.Blocks[0], nil, 0, nil, nil, nil})
+		work = append(work, item{entry, nil, 0, nil, nil, nil, nil})
 	} else {
-		work = append(work, item{from.Block(), nil, instrIndex(from) + 1, nil, nil, nil})
+		work = append(work, item{from.Block(), nil, instrIndex(from) + 1, nil, nil, nil, nil})
 	}
+	defer func() { activePathRets = nil }()
 	seen := map[string]bool{}
 	keyOf := func(b *ssa.BasicBlock, pv map[*ssa.Phi]bool, pi map[*ssa.Phi]int64) string {
 		var parts []string
@@ -1043,6 +1178,8 @@ func PrunedCanReach(fn *ssa.Function, from ssa.Instruction, assumes []Assume, ta
 		work = work[:len(work)-1]
 		pv := it.phiVals
 		pi := it.phiInts
+		pathRets := it.rets
+		activePathRets = pathRets
 		if it.start == 0 {
 			// evaluate boolean phis of this block from the incoming edge
 			if it.pred != nil {
@@ -1092,6 +1229,12 @@ func PrunedCanReach(fn *ssa.Function, from ssa.Instruction, assumes []Assume, ta
 				}
 			}
 			k := keyOf(it.b, pv, pi)
+			for cl, rs := range pathRets {
+				k += "|" + cl.Name() + "="
+				for _, r := range rs {
+					k += r.Name() + ","
+				}
+			}
 			if seen[k] {
 				continue
 			}
@@ -1099,6 +1242,7 @@ func PrunedCanReach(fn *ssa.Function, from ssa.Instruction, assumes []Assume, ta
 		}
 		trail := append(append([]*ssa.BasicBlock{}, it.trail...), it.b)
 		blocked := false
+		descended := false
 		for i := it.start; i < len(it.b.Instrs); i++ {
 			in := it.b.Instrs[i]
 			if target != nil && target(in) {
@@ -1108,9 +1252,29 @@ func PrunedCanReach(fn *ssa.Function, from ssa.Instruction, assumes []Assume, ta
 				blocked = true
 				break
 			}
+			if h := transparentCallee(in); h != nil && len(h.Blocks) > 0 {
+				work = append(work, item{h.Blocks[0], nil, 0, trail, pv, pi, pathRets})
+				descended = true
+				break
+			}
 		}
-		if blocked {
+		if blocked || descended {
 			continue
+		}
+		if f := it.b.Parent(); f != fn && len(it.b.Succs) == 0 {
+			if s := siteOf(f); s != nil && EnclosingTop(f) == f {
+				if ret, isRet := it.b.Instrs[len(it.b.Instrs)-1].(*ssa.Return); isRet {
+					// remember what this path returns: conditions on the call's results are decided from it
+					npr := map[*ssa.Call][]ssa.Value{}
+					for k, v := range pathRets {
+						npr[k] = v
+					}
+					npr[s] = ret.Results
+					pathRets = npr
+					work = append(work, item{s.Block(), nil, instrIndex(s) + 1, trail, pv, pi, pathRets})
+				}
+				continue
+			}
 		}
 		if target == nil && isNormalExit(it.b) {
 			return true, trail
@@ -1128,7 +1292,7 @@ func PrunedCanReach(fn *ssa.Function, from ssa.Instruction, assumes []Assume, ta
 			}
 		}
 		for _, s := range succs {
-			work = append(work, item{s, it.b, 0, trail, pv, pi})
+			work = append(work, item{s, it.b, 0, trail, pv, pi, pathRets})
 		}
 	}
 	return false, nil
@@ -1232,6 +1396,9 @@ func findInstrs(fn *ssa.Function, pred instrPred) []ssa.Instruction {
 		for _, in := range b.Instrs {
 			if pred(in) {
 				out = append(out, in)
+			}
+			if h := transparentCallee(in); h != nil {
+				out = append(out, findInstrs(h, pred)...)
 			}
 		}
 	}
@@ -1487,4 +1654,54 @@ func methodValueTaken(p *Program, fn *ssa.Function) bool {
 		}
 	}
 	return false
+}
+
+// effReturns: the return instructions at which fn's results are decided.  A
+// return that merely forwards the results of a transparent helper called right
+// before it (`return s.secondHalf(...)`, the shape a split function has) is
+// replaced by the helper's own returns.
+func effReturns(fn *ssa.Function) []*ssa.Return {
+	var out []*ssa.Return
+	for _, b := range fn.Blocks {
+		if len(b.Instrs) == 0 || (len(b.Preds) == 0 && b.Index != 0) {
+			continue
+		}
+		ret, ok := b.Instrs[len(b.Instrs)-1].(*ssa.Return)
+		if !ok {
+			continue
+		}
+		if h := forwardedHelper(ret); h != nil {
+			out = append(out, effReturns(h)...)
+			continue
+		}
+		out = append(out, ret)
+	}
+	return out
+}
+
+func forwardedHelper(ret *ssa.Return) *ssa.Function {
+	if len(ret.Results) == 0 {
+		return nil
+	}
+	var call *ssa.Call
+	for i, r := range ret.Results {
+		var c *ssa.Call
+		switch x := r.(type) {
+		case *ssa.Extract:
+			if x.Index != i {
+				return nil
+			}
+			c, _ = x.Tuple.(*ssa.Call)
+		case *ssa.Call:
+			if len(ret.Results) != 1 {
+				return nil
+			}
+			c = x
+		}
+		if c == nil || (call != nil && c != call) {
+			return nil
+		}
+		call = c
+	}
+	return transparentCallee(call)
 }
